@@ -291,6 +291,43 @@ def rule_htyped(prog, handlers):
     return obs
 
 
+def rule_hgate(prog, handlers):
+    """an operand that a built-in handler type-checks at all is type-checked on every path to an Ok result: no Ok
+    return is reachable from the handler's entry without passing a typed accessor (or variant match) on that
+    operand — `false && 3` must fail like `3 && false` does"""
+    import r_order
+    acc_ids = {b.id for b in accessors(prog)}
+    obs = []
+    for h in handlers:
+        base = 2 if h.is_closure else 1
+        for p in range(base, h.arg_count + 1):
+            if h.locals[p]['ty'] != VALUE:
+                continue
+            gates = set()
+            for c in h.live_calls:
+                if c.ruid in acc_ids and c.args:
+                    o = single_origin(trace_operand(h, c.args[0], through_calls={'std::clone::Clone::clone'}))
+                    if o is not None and o.kind == 'param' and o.data == p and not o.proj:
+                        gates.add(c.bb)
+            for bb in sorted(h.live_blocks):
+                t = h.blocks[bb]['term']
+                if t['k'] == 'switch':
+                    o = single_origin(trace_operand(h, t['discr'], through_calls=set()))
+                    if o is not None and o.kind == 'discr':
+                        oo = single_origin(trace_local(h, o.data[2]['pl']['l'], ()))
+                        if oo is not None and oo.kind == 'param' and oo.data == p and not oo.proj:
+                            gates.add(bb)
+            if not gates:
+                continue
+            which = {0: 'left / only', 1: 'right'}.get(p - base, '#%d' % (p - base))
+            key = 'HGATE|%s|%d' % (h.name, p - base)
+            if r_order._ok_return_reachable(h, 0, gates):
+                obs.append(bad('HGATE', key, 'an Ok result is reachable without type-checking the %s operand, although other paths do check it: an operand of the wrong type is accepted when the other operand settles the result' % which, h.where(), body=h.name))
+            else:
+                obs.append(ok('HGATE', key, 'every Ok path type-checks the %s operand' % which, h.where()))
+    return obs
+
+
 def _produced_values(h):
     """Value-typed locals that are built by the handler (aggregate / From::from / into)"""
     out = set()
